@@ -112,9 +112,46 @@ func genSpelling(t *rapid.T, label string) string {
 }
 
 // (names beginning with a dot are ordinary names)
-var c19Names = []string{"a", "b", "c.jet", "d", ".a", ".c.jet", "..d"}
+// (names with the marker ¤ stand for names with bytes that are not UTF-8 - legal file names - which a case
+// written out as JSON could not carry: ¤e9 is the byte 0xe9; c19Real puts the bytes in)
+var c19Names = []string{"a", "b", "c.jet", "d", ".a", ".c.jet", "..d", "caf¤e9.jet", "men¤fc"}
 
-func genTree(t *rapid.T, label string) (files map[string]string, dirs []string) {
+var c19Marker = strings.NewReplacer("¤e9", "\xe9", "¤fc", "\xfc")
+
+func c19Real(c c19Case) c19Case {
+	r := c19Marker.Replace
+	out := c19Case{Kind: c.Kind, Initial: c.Initial}
+	for _, o := range c.Ops {
+		out.Ops = append(out.Ops, c19Op{Op: o.Op, Path: r(o.Path), Data: o.Data})
+	}
+	for _, q := range c.Queries {
+		out.Queries = append(out.Queries, r(q))
+	}
+	for _, l := range c.Layers {
+		n := c19Layer{Root: l.Root, Kind: l.Kind}
+		if l.Files != nil {
+			n.Files = map[string]string{}
+			for p, d := range l.Files {
+				n.Files[r(p)] = d
+			}
+		}
+		for _, d := range l.Dirs {
+			n.Dirs = append(n.Dirs, r(d))
+		}
+		for _, ln := range l.Links {
+			n.Links = append(n.Links, c19Link{Path: r(ln.Path), Target: r(ln.Target)})
+		}
+		out.Layers = append(out.Layers, n)
+	}
+	return out
+}
+
+// (names that are not UTF-8 only where the loader's own code decides: since Go 1.23 http.Dir refuses such names itself)
+func genTree(t *rapid.T, label string, rawNames bool) (files map[string]string, dirs []string) {
+	c19Names := c19Names
+	if !rawNames {
+		c19Names = c19Names[:7]
+	}
 	files = map[string]string{}
 	n := rapid.IntRange(0, 6).Draw(t, label+"Files")
 	for i := 0; i < n; i++ {
@@ -157,7 +194,7 @@ func genLayer(t *rapid.T, label string, kinds []string) c19Layer {
 	k := rapid.SampledFrom(kinds).Draw(t, label+"Kind")
 	l := c19Layer{Kind: k, Root: rapid.IntRange(0, 6).Draw(t, label+"Root")}
 	if k != "embed" {
-		l.Files, l.Dirs = genTree(t, label)
+		l.Files, l.Dirs = genTree(t, label, k != "http")
 	}
 	if k == "os" || k == "http" {
 		var files []string
@@ -265,7 +302,7 @@ func genC19(t *rapid.T) c19Case {
 		c := c19Case{Kind: "multi"}
 		n := rapid.IntRange(1, 4).Draw(t, "nlayers")
 		for i := 0; i < n; i++ {
-			c.Layers = append(c.Layers, genLayer(t, fmt.Sprintf("l%d", i), []string{"inmem", "os", "http", "inmem", "os", "embed"}))
+			c.Layers = append(c.Layers, genLayer(t, fmt.Sprintf("l%d", i), []string{"inmem", "os", "http", "inmem", "os", "embed", "table", "table"}))
 		}
 		c.Initial = rapid.IntRange(0, n).Draw(t, "initial")
 		c.Queries = universe(c.Layers)
@@ -287,6 +324,13 @@ func readAll(l jet.Loader, p string) (string, error) {
 // chdir: set to the directory the process has to work in for an http.Dir("") layer (at most one per case).
 func buildLayer(l c19Layer, tmpRoot string, idx int, chdir *string) (jet.Loader, map[string]string, error) {
 	switch l.Kind {
+	case "table":
+		// an application's own Loader whose type is a map (not comparable): a Loader like any other for a stack
+		tl := tableLoader{}
+		for p, c := range l.Files {
+			tl[p] = c
+		}
+		return tl, l.Files, nil
 	case "inmem":
 		m := jet.NewInMemLoader()
 		for p, c := range l.Files {
@@ -363,7 +407,19 @@ func buildLayer(l c19Layer, tmpRoot string, idx int, chdir *string) (jet.Loader,
 	return hl, model, err
 }
 
+type tableLoader map[string]string
+
+func (t tableLoader) Exists(p string) bool { _, ok := t[p]; return ok }
+func (t tableLoader) Open(p string) (io.ReadCloser, error) {
+	c, ok := t[p]
+	if !ok {
+		return nil, os.ErrNotExist
+	}
+	return io.NopCloser(strings.NewReader(c)), nil
+}
+
 func judgeC19(c c19Case) (v core.Verdict) {
+	c = c19Real(c)
 	v.Label("kind:" + c.Kind)
 	if c.Kind == "inmem" {
 		// the history runs on a goroutine of its own: a loader that stops answering (a lock kept on some path)
@@ -632,7 +688,7 @@ func judgeC19FS(c c19Case) (v core.Verdict) {
 
 func TestC19(t *testing.T) {
 	core.Run(t, "C19",
-		"(a) InMemLoader histories of Set/Delete/Exists/Open (run under a deadlock watchdog) under generated spellings (./ ../ // trailing slash, with and without leading slash) against a map keyed by an independent normaliser; (b) OS/http/embed loaders over generated trees (embed: a fixed tree below testdata/ and a package that embeds its own directory, root '.', with dot files and a dot directory at the top level) queried with every clean absolute path of the universe (files, directories, missing siblings, paths below files, root); (c) multi stacks of 1-4 such loaders with overlapping contents and AddLoaders mid-history, sibling stacks built from one slice with spare capacity, a stack whose caller overwrites the exactly-full slice it was built from, plus two in-memory layers between which a path moves after Exists has answered and before Open is asked; non-trivial = a query spelt differently from the spelling used to store, or naming a directory, or answered by a later loader of a stack",
+		"(a) InMemLoader histories of Set/Delete/Exists/Open (run under a deadlock watchdog) under generated spellings (./ ../ // trailing slash, with and without leading slash) against a map keyed by an independent normaliser; (b) OS/http/embed loaders over generated trees (embed: a fixed tree below testdata/ and a package that embeds its own directory, root '.', with dot files and a dot directory at the top level) queried with every clean absolute path of the universe (files, directories, missing siblings, paths below files, root); (c) multi stacks of 1-4 such loaders with overlapping contents and AddLoaders mid-history, sibling stacks built from one slice with spare capacity, a stack whose caller overwrites the exactly-full slice it was built from, plus two in-memory layers between which a path moves after Exists has answered and before Open is asked; round 10: file and directory names that are not UTF-8 (in-memory and OS loaders); Loaders of a map type (not comparable) in stacks; non-trivial = a query spelt differently from the spelling used to store, or naming a directory, or answered by a later loader of a stack",
 		genC19, judgeC19)
 }
 
